@@ -6,12 +6,12 @@ CONSTANTS
   ParamTables <- ParQuick
   FLen = 2
   Alias <- AliasBeef
-  Bug = "suffix"
+  Bug = "none"
   MaxConnect = 2
   MaxCrash = 1
-  MaxOther = 0
+  MaxOther = 1
   OtherTables <- OtherTabs
-  MaxEnv = 1
+  MaxEnv = 0
 INVARIANT SetupsOK
 INVARIANT ConnectionOK
 INVARIANT RoNeverWritten
